@@ -782,6 +782,8 @@ func init() {
 		if n := len(*l); n > 0 {
 			v := (*l)[n-1]
 			*l = (*l)[:n-1]
+			// a Put happens before the Get that returns the item
+			fr.m.raceAcquire(l)
 			return v
 		}
 		st := (*a[0].(*value)).(structure)
@@ -800,6 +802,7 @@ func init() {
 		}
 		l := poolList(fr, a[0])
 		*l = append(*l, a[1])
+		fr.m.raceRelease(l)
 		return nil
 	})
 	reg("(*sync.WaitGroup).Add", func(fr *frame, a []value) value {
